@@ -10,6 +10,7 @@ together. The per-connection goroutines of one round are run one after the other
 of the pending list (the harness canonicalises the real, concurrent order accordingly).
 -/
 import Rv.Model.ClusterRoute
+import Rv.Spec.Cluster
 namespace Rv.ClusterMulti
 open Rv Rv.Topology Rv.ClusterRoute
 
@@ -168,6 +169,11 @@ def scanDown (cs : List Entry) : Nat → Option Nat
   | 0 => if isM cs 0 || isE cs 0 then some 0 else none
   | k + 1 => if isM cs (k + 1) || isE cs (k + 1) then some (k + 1) else scanDown cs k
 
+/-- `mi = i; if isExec(commands[mi]) { mi-- }; for ; mi >= 0 && …; mi-- {}`: when the command at `i` is the EXEC
+    itself the search for its MULTI starts one above it -/
+def scanStart (cs : List Entry) (i : Nat) : Option Nat :=
+  if isE cs i then (match i with | 0 => none | k + 1 => scanDown cs k) else scanDown cs i
+
 /-- `for ei = i; ei < len(commands) && !isMulti(commands[ei]) && !isExec(commands[ei]); ei++ {}` -/
 def scanUp (cs : List Entry) : Nat → Nat → Nat
   | 0, k => k
@@ -183,48 +189,69 @@ def setAt {α : Type} (xs : List α) (i : Nat) (v : α) : List α := xs.set i v
 /-- `ei < i` with `ei = -1` initially -/
 def eiLt (t : Tx) (i : Nat) : Bool := match t.ei with | none => true | some e => e < i
 
+/-- what one iteration of the `for i, resp := range resps` loop decides to re-queue -/
+inductive Requeue where
+  | nothing
+  | cmds (nc : Conn) (es : List Entry)   -- appended to `nr.cIndexes` / `nr.commands`
+  | asks (nc : Conn) (es : List Entry)   -- appended to `nr.aIndexes` / `nr.cAskings`
+
+structure Dec where
+  c : Client
+  t : Tx
+  rq : Requeue := .nothing
+  /-- `retries.Redirects++` -/
+  redirInc : Bool := false
+  /-- `retries.RetryDelay = max(…, retryDelay)` with `retryDelay >= 0` -/
+  delay : Bool := false
+
+def applyRq : Requeue → Pending → Pending
+  | .nothing, p => p
+  | .cmds nc es, p => addCmds nc es p
+  | .asks nc es, p => addAsks nc es p
+
+/-- the decision part of the loop body (everything after `results.s[ii] = resp`) -/
+def decideStep (o : Opt) (cache hasInit : Bool) (attempts : Nat) (cc : Conn) (cs : List Entry) (resps : List Reply)
+    (c : Client) (t : Tx) (i ii : Nat) (cm : Cmd) (resp : Reply) : Dec :=
+  let mode := classify resp
+  if mode = .none then { c := c, t := t }
+  else if mode = .retry ∧ (!o.retry ∨ (!cache ∧ !cm.retryable) ∨ ¬ attempts ≤ o.budget) then { c := c, t := t }
+  else
+    -- (a retryable failure whose `RetryDelay` is negative was dropped by the line above)
+    let delayOk : Bool := mode = .retry
+    let isAsk : Bool := match mode with | .ask _ => true | _ => false
+    let (nc, c') : Conn × Client := match mode with
+      | .move addr => redirectOrNew c addr cc cm.slot true
+      | .ask addr => redirectOrNew c addr cc cm.slot false
+      | _ => (cc, c)
+    -- transaction search
+    let t' : Tx := if hasInit ∧ !cache ∧ eiLt t i then { mi := scanStart cs i, ei := some (scanUp cs (cs.length + 1) i) } else t
+    let found : Bool := hasInit && !cache && eiLt t i &&
+      (match t'.mi, t'.ei with
+       | some m, some e => decide (e < cs.length) && isM cs m && isE cs e && decide ((resps[m]?).map strOf = some kOK)
+       | _, _ => false)
+    if found then
+      match t'.mi, t'.ei with
+      | some m, some e =>
+        let block := (cs.drop m).take (e + 1 - m)
+        { c := c', t := t', rq := if isAsk then .asks nc block else .cmds nc block, redirInc := true }
+      | _, _ => { c := c', t := t' }
+    else
+      let inside : Bool := hasInit && !cache &&
+        (match t'.mi, t'.ei with
+         | some m, some e => decide (m < i) && decide (i < e) && isM cs m
+         | _, _ => false)
+      if inside then { c := c', t := t' }
+      else { c := c', t := t', rq := if isAsk then .asks nc [(ii, cm)] else .cmds nc [(ii, cm)], redirInc := mode ≠ .retry, delay := delayOk }
+
 /-- body of the `for i, resp := range resps` loop -/
 def resultStep (o : Opt) (cache hasInit : Bool) (attempts : Nat) (cc : Conn) (cs : List Entry) (resps : List Reply)
     (st : Acc × Tx) (i : Nat) : Acc × Tx :=
   match cs[i]?, resps[i]? with
   | some (ii, cm), some resp =>
-    let a := { st.1 with results := setAt st.1.results ii (some resp) }
-    let t := st.2
-    let mode := classify resp
-    if mode = .none then (a, t)
-    else if mode = .retry ∧ (!o.retry ∨ (!cache ∧ !cm.retryable)) then (a, t)
-    else
-      let delayOk : Bool := mode = .retry ∧ attempts ≤ o.budget
-      let isAsk : Bool := match mode with | .ask _ => true | _ => false
-      let (nc, c') : Conn × Client := match mode with
-        | .move addr => redirectOrNew a.c addr cc cm.slot true
-        | .ask addr => redirectOrNew a.c addr cc cm.slot false
-        | _ => (cc, a.c)
-      let a := { a with c := c' }
-      -- transaction search
-      let t' : Tx := if hasInit ∧ !cache ∧ eiLt t i then { mi := scanDown cs i, ei := some (scanUp cs (cs.length + 1) i) } else t
-      let found : Bool := hasInit && !cache && eiLt t i &&
-        (match t'.mi, t'.ei with
-         | some m, some e => decide (e < cs.length) && isM cs m && isE cs e && decide ((resps[m]?).map strOf = some kOK)
-         | _, _ => false)
-      if found then
-        match t'.mi, t'.ei with
-        | some m, some e =>
-          let block := (cs.drop m).take (e + 1 - m)
-          let nx := if isAsk then addAsks nc block a.next else addCmds nc block a.next
-          ({ a with next := nx, redirects := a.redirects + 1 }, t')
-        | _, _ => (a, t')
-      else
-        let inside : Bool := hasInit && !cache &&
-          (match t'.mi, t'.ei with
-           | some m, some e => decide (m < i) && decide (i < e) && isM cs m
-           | _, _ => false)
-        if inside then (a, t')
-        else
-          let nx := if isAsk then addAsks nc [(ii, cm)] a.next else addCmds nc [(ii, cm)] a.next
-          ({ a with next := nx,
-                    redirects := if mode ≠ .retry then a.redirects + 1 else a.redirects,
-                    hasDelay := a.hasDelay || delayOk }, t')
+    let d := decideStep o cache hasInit attempts cc cs resps st.1.c st.2 i ii cm resp
+    ({ c := d.c, results := setAt st.1.results ii (some resp), next := applyRq d.rq st.1.next,
+       redirects := if d.redirInc then st.1.redirects + 1 else st.1.redirects,
+       hasDelay := st.1.hasDelay || d.delay }, d.t)
   | _, _ => st
 
 def resultFn (o : Opt) (cache hasInit : Bool) (attempts : Nat) (cc : Conn) (cs : List Entry) (resps : List Reply) (a : Acc) : Acc :=
@@ -238,13 +265,13 @@ def callKind (cache : Bool) : CallKind := if cache then .multiCache else .multi
 def doRetry (o : Opt) (cache hasInit : Bool) (attempts : Nat) (cc : Conn) (re : Retry) (a : Acc) (w : World) : Acc × World :=
   let (a1, w1) :=
     if re.cmds ≠ [] then
-      let w0 := logCall w { addr := cc.addr, kind := callKind cache, items := re.cmds.map fun e => Item.cmd e.2.id }
+      let w0 := logCall w { conn := cc, kind := callKind cache, items := re.cmds.map fun e => Item.cmd e.2.id }
       let (rs, w') := answerAll w0 cc.addr (re.cmds.map (·.2))
       (resultFn o cache hasInit attempts cc re.cmds rs a, w')
     else (a, w)
   if re.asks ≠ [] then
     let items := if cache then askingCacheItems re.asks else askingItems false re.asks
-    let w0 := logCall w1 { addr := cc.addr, kind := .multi, items := items }
+    let w0 := logCall w1 { conn := cc, kind := .multi, items := items }
     let (rs, w') := answerAll w0 cc.addr (re.asks.map (·.2))
     (resultFn o cache hasInit attempts cc re.asks rs a1, w')
   else (a1, w1)
@@ -387,16 +414,25 @@ def showCall (c : Call) : String :=
   (match c.kind with | .do_ => "d" | .multi => "m" | .cache => "c" | .multiCache => "mc") ++ ":" ++
     ",".intercalate (c.items.map showItem)
 
-def addrsOf (log : List Call) : List Bytes :=
-  log.foldl (fun acc c => if acc.contains c.addr then acc else acc ++ [c.addr]) []
+def connsOf (log : List Call) : List ConnId :=
+  log.foldl (fun acc c => if acc.contains c.conn then acc else acc ++ [c.conn]) []
 
+def insertConn (x : ConnId) : List ConnId → List ConnId
+  | [] => [x]
+  | y :: ys =>
+    if Hex.encode x.addr < Hex.encode y.addr || (x.addr = y.addr && x.serial ≤ y.serial) then x :: y :: ys
+    else y :: insertConn x ys
+
+/-- per-connection logs, connections ordered by address then age; a second, third … connection to the
+    same address is labelled `addr#1`, `addr#2` … -/
 def showLog (log : List Call) : String :=
   if log.isEmpty then "-" else
-  let per := (addrsOf log).map fun a =>
-    (Hex.encode a, Hex.encode a ++ "=" ++ ";".intercalate ((log.filter (·.addr = a)).map showCall))
-  " ".intercalate ((ClusterWire.sortByKey per).map (·.2))
+  let cs := (connsOf log).foldl (fun acc x => insertConn x acc) []
+  let label (c : ConnId) : String :=
+    let ord := ((cs.filter fun d => d.addr = c.addr).takeWhile (· ≠ c)).length
+    Hex.encode c.addr ++ (if ord = 0 then "" else "#" ++ toString ord)
+  " ".intercalate (cs.map fun c => label c ++ "=" ++ ";".intercalate ((log.filter (·.conn = c)).map showCall))
 
-/-- run-length text of the write table -/
 def insertNat (x : Nat) : List Nat → List Nat
   | [] => [x]
   | y :: ys => if x < y then x :: y :: ys else if x = y then y :: ys else y :: insertNat x ys
@@ -445,8 +481,8 @@ def showConns (m : List (Bytes × Conn × Bool)) : String :=
     (Hex.encode e.1, Hex.encode e.1 ++ (if e.2.2 then ":h" else ":v")))).map (·.2))
 
 def showPending (p : Pending) : String :=
-  " ".intercalate ((ClusterWire.sortByKey (p.map fun e =>
-    (Hex.encode e.1.addr, Hex.encode e.1.addr ++ "=" ++ ",".intercalate (e.2.cmds.map fun x => toString x.1)))).map (·.2))
+  let rendered := p.map fun e => Hex.encode e.1.addr ++ "=" ++ ",".intercalate (e.2.cmds.map fun x => toString x.1)
+  " ".intercalate ((ClusterWire.sortByKey (rendered.map fun r => (r, r))).map (·.2))
 
 def withScript (d : DS) (inj : List (Bytes × Nat × Reply)) : St :=
   { d.st with w := { script := inj } }
@@ -516,7 +552,19 @@ def step (d : DS) (ws0 : List String) : DS × String :=
       | .nil_ => (d, "nil")
       | .panic => (d, "panic")
     | none => (d, "bad-op")
-  | "!trace" :: _ => (d, "ok")
+  | "!trace" :: rest => (d, Spec.Cluster.Wire.judgeLine rest)
+  | "!route" :: ver :: tls :: rest =>
+    -- oracle: owner of each slot according to the specification on the topology description
+    match ver.toNat?, Spec.Cluster.Wire.parseDesc rest with
+    | some ver, some (ds, _ :: slots) =>
+      let v : Spec.Cluster.View := { ver := ver, tls := tls == "1", defaultAddr := [] }
+      (d, " ".intercalate (slots.map fun s =>
+        match s.toInt? with
+        | none => "bad"
+        | some s => match Spec.Cluster.ownerOf v ds s with
+          | none => "-"
+          | some (m, _) => Hex.encode m))
+    | _, _ => (d, "bad-op")
   | _ => (d, "bad-op")
 
 end Rv.ClusterMulti.Wire
